@@ -89,13 +89,22 @@ def gen_helper_family(rng, stem, utf8, om, exemplars=False, units=False):
     unit = ''
     if units and kind not in ('info', 'stateset') and rng.random() < 0.4:
         unit = rng.choice(['seconds', 'bytes', 'x'])
-    nchild = rng.randrange(1, 3)
+    nchild = rng.randrange(1, 3) if k else 1
+    used = set()
 
     def lvals():
-        return [adv_string(rng, 5) for _ in range(k)]
+        while True:      # distinct label sets per child: duplicates are not a meaningful registry content
+            v = tuple(adv_string(rng, 5) for _ in range(k))
+            if v not in used:
+                used.add(v)
+                return list(v)
+
+    fam_ts = gen_timestamp(rng, om)
 
     def ts():
-        return gen_timestamp(rng, om)
+        # OpenMetrics treats e.g. all info samples of a family as one group, which must agree on timestamp presence
+        # and not go backwards: one timestamp per family there; free per child in the text format
+        return fam_ts if om else gen_timestamp(rng, om)
 
     def ex():
         if not exemplars or rng.random() < 0.6:
@@ -143,7 +152,7 @@ def gen_helper_family(rng, stem, utf8, om, exemplars=False, units=False):
             if kind == 'histogram':
                 f.add_metric(lvals(), buckets, sum_value=rng.choice([None, abs(rng.uniform(0, 100))]), timestamp=ts())
             else:
-                f.add_metric(lvals(), buckets, gsum_value=rng.uniform(-10, 100), timestamp=ts())
+                f.add_metric(lvals(), buckets, gsum_value=rng.uniform(-10, 100) if not om else rng.uniform(0, 100), timestamp=ts())
     elif kind == 'info':
         f = core.InfoMetricFamily(name, doc, labels=lnames)
         for _ in range(nchild):
